@@ -39,6 +39,18 @@ CHECKS = {
              "tied by correspondence (sampling) — the WSGI/aiohttp adapters are exercised, not proved.",
         tech="Python->Lean translation + Lean 4 proof against an RFC 7232 spec + differential correspondence",
         ref="5/C03"),
+    "C15": dict(
+        text="The configparser file format is modelled in Lean (write + read, validated against CPython on >=5e4 "
+             "configs) and proved to round-trip every well-formed config with safe values (multi-line included); on "
+             "the store model, which computes the exact bytes of .xandikos, a successful set is proved to read back "
+             "exactly, to leave every other property and every member untouched, to survive restarts and member "
+             "writes. Tied to /repo by store-level histories (bare/tree) and PROPPATCH/PROPFIND histories through both "
+             "front ends on three collections with restarts; the git-config back end is monitored only.",
+        note="the recorded finding KF-C15-multiline (continuation lines starting with white space/#/;) is excluded by "
+             "the SafeValue hypothesis and replayed deterministically; XML transport of values and the property "
+             "handlers are tied by correspondence; dulwich's git-config codec is not modelled; ';' excluded there.",
+        tech="Lean 4 round-trip proof of the configparser codec + store-model proof + differential correspondence",
+        ref="5/C15"),
     "C06": dict(
         text="Invariant proof: `_scan_uids` is proved exact (after a scan the UID cache is the image of the current "
              "listing, whatever was scanned before) by induction over the two loops; from it: a UID refusal implies "
